@@ -3,6 +3,7 @@
 package model
 
 import (
+	"fmt"
 	"path/filepath"
 	"sort"
 	"strings"
@@ -74,9 +75,21 @@ func follow(snap map[string]memfs.Entry, path string, depth int) (string, memfs.
 	return follow(snap, filepath.Clean(t), depth+1)
 }
 
+// Overrides narrow the ground truth for one refresh in which the simulator
+// itself made some of the scanner's calls fail.
+type Overrides struct {
+	DirDown  map[int]bool    // indexes of directories that could not be scanned this time
+	FileDown map[string]bool // "<dir index>:<path>" of Spec files whose own lstat/open/read failed this time
+}
+
 // Observe computes the ground truth for dirs on the given disk as seen by a
 // process with credential cred.
 func Observe(fs *memfs.FS, dirs []string, reg *gen.Registry, cred memfs.Cred) *Truth {
+	return ObserveWith(fs, dirs, reg, cred, Overrides{})
+}
+
+// ObserveWith is Observe with transient-fault overrides.
+func ObserveWith(fs *memfs.FS, dirs []string, reg *gen.Registry, cred memfs.Cred, ov Overrides) *Truth {
 	snap := fs.Snapshot("/")
 	t := &Truth{Dirs: dirs, DirState: make([]string, len(dirs))}
 	for i, d := range dirs {
@@ -119,6 +132,9 @@ func Observe(fs *memfs.FS, dirs []string, reg *gen.Registry, cred memfs.Cred) *T
 				state = "ok"
 			}
 		}
+		if state == "ok" && ov.DirDown[i] {
+			state = "transient-failure"
+		}
 		t.DirState[i] = state
 		if state != "ok" {
 			continue
@@ -150,6 +166,8 @@ func Observe(fs *memfs.FS, dirs []string, reg *gen.Registry, cred memfs.Cred) *T
 			case re.Mode&memfs.S_IFMT != memfs.S_IFREG:
 				f.State = "special"
 			case !may(re, cred, 4):
+				f.State = "unreadable"
+			case ov.FileDown[fmt.Sprintf("%d:%s", i, p)]:
 				f.State = "unreadable"
 			default:
 				m := reg.Lookup(re.Data)
@@ -278,6 +296,27 @@ func (t *Truth) VendorPaths(v string) []string {
 		}
 	}
 	return keys(set)
+}
+
+// Scannable reports whether every configured directory is scannable or absent.
+func (t *Truth) AllDirsReadableOrAbsent() bool {
+	for _, s := range t.DirState {
+		if s != "ok" && s != "missing" {
+			return false
+		}
+	}
+	return true
+}
+
+// UnscannableDirs returns the configured directories that exist in some form but cannot be scanned.
+func (t *Truth) UnscannableDirs() []string {
+	var out []string
+	for i, s := range t.DirState {
+		if s != "ok" && s != "missing" {
+			out = append(out, t.Dirs[i])
+		}
+	}
+	return out
 }
 
 // MustErr returns the paths of Spec files that must have an error entry.
